@@ -368,7 +368,7 @@ func (p c04) Run(t *testing.T, s harness.Scenario) harness.Outcome {
 		atReplica := map[string]bool{}
 		movedCmd := map[string]bool{}
 		redirChain := map[string][]int{} // the nodes that answered a uniquely identifiable command with MOVED/ASK, in order
-		execAt := map[string]int{} // position in the nodes' log at which a uniquely identifiable command was executed
+		execAt := map[string]int{}       // position in the nodes' log at which a uniquely identifiable command was executed
 		for li, le := range cl.Log {
 			n := strings.ToLower(string(le.Args[0]))
 			if n == "readonly" || n == "cluster" || n == "asking" {
